@@ -184,6 +184,15 @@ def scheme_checks(eng, Q, basename, fail, concrete=None):
                     check(p_, (1 - q_) if ax == k else q_, '%s.%s: coordinate %d of the nodes' % (label, nm, ax))
             for p_, q_ in zip(np.asarray(m_.weights).flat, np.asarray(sch.weights).flat):
                 check(p_, q_, '%s.%s: weights' % (label, nm))
+        # compositions on the (possibly cached) mirror objects: two different axes reflect both coordinates, the same
+        # axis twice gives back the rule - in either order
+        for k1, n1 in enumerate(names):
+            for k2, n2 in enumerate(names):
+                m2 = getattr(getattr(sch, n1)(), n2)()
+                for ax in range(dim):
+                    flips = (ax == k1) != (ax == k2)
+                    for p_, q_ in zip(np.asarray(m2.points[ax]).flat, np.asarray(sch.points[ax]).flat):
+                        check(p_, (1 - q_) if flips else q_, '%s.%s().%s(): coordinate %d of the nodes' % (label, n1, n2, ax))
     check_mirrors(Q.ProductScheme2D(base, base), 'ProductScheme2D (fresh object, both mirrors requested)', 2)
     check_mirrors(t2, 'ProductScheme2D', 2)
     # 2-D Duffy
